@@ -131,6 +131,9 @@ def judge_trusted(case, impl, model):
         m_tru = S.res_same(cls, model["trusted"], tru)
         if m_tru and "exception class differs" in m_tru:
             m_tru = None       # two raising entries: the model raises in field order, the code in document order
+        if m_tru and "model raises KeyError" in m_tru and "ok" not in (reg or {}):
+            m_tru = None       # a document the regular path rejects: the enum-mapping step knows the whole enum class,
+                               # the model only the member names the field allows
         if m_tru:
             msgs.append("trusted deserialize: " + m_tru)
     if mapper_free and in_scope and not offpath and not set_of_struct and reg and "ok" in reg:
@@ -347,10 +350,46 @@ def judge_fast(case, impl, model):
             in_region = bool(mapper_free and not case.get("nonFast") and model.get("fsafe") and model.get("fwf")
                              and "fast:compact-conditions" not in tag_list)
             explained = m_fast is None
+            if not explained and not in_region and tag_list and any(k != "plain" for k in (case.get("enumKinds") or {}).values()):
+                # outside the proved region a mixin enum member (a str / int / float itself) can slip through a
+                # serializer meant for another option where the model's plain member raises: the named defect stands
+                explained = True
             key = attribute(what, in_region, explained, tag_list)
             fails.append((key, f"create_serializer(compact={case['compact']}, serialize_none={case['serializeNone']}) succeeded "
                           f"but {what}: {detail}; instance={json.dumps(impl.get('x'))[:200]}"))
     return ("; ".join(msgs)[:1500] if msgs else None), fails
+
+
+def judge_enumvalue(case, impl, model):
+    """Enum fields by name / by value over enum classes of every kind: the statement on the real code only"""
+    fails = []
+    sites = sorted({f["site"] + (":by-value" if f.get("byValue") else ":by-name") for f in case["fields"] if f["site"] != "int"})
+    by_value_direct = any(f["site"] in ("field", "optional", "optionalRev") and f.get("byValue") for f in case["fields"])
+    set_fields = {f["name"] for f in case["fields"] if f["site"] == "set"}
+    reg, tru = impl.get("regular", {}), impl.get("trusted", {})
+    v = impl.get("verdict")
+    what = None
+    if "ok" in reg and v in ("flat", "nested"):
+        if "ok" not in tru:
+            what = "trusted-raises"
+        elif impl.get("eq") != [True, True]:
+            what = "not-equal"
+        elif not impl.get("ser_same"):
+            what = "serialization-differs"
+    elif "ok" in reg and v == "no" and ("ok" not in tru or impl.get("eq") != [True, True]):
+        what = "ineligible-flag-changes"
+    if what:
+        supplied = {n for n, _ in case["members"]}
+        direct_hit = any(f["site"] in ("field", "optional", "optionalRev") and f.get("byValue") and f["name"] in supplied
+                         for f in case["fields"])
+        key = "crash:enum-by-value" if (what == "trusted-raises" and direct_hit and tru.get("err") == "KeyError") \
+            else f"enum-kinds:{what}:" + "+".join(sites)[:80]
+        fails.append((key, f"Enum fields {sites} over {case['enumKinds']}: {what}: doc={impl.get('doc')} regular={reg} trusted={tru}"))
+    if impl.get("regular_ser_ok") and impl.get("fast_same") is False:
+        fails.append(("enum-kinds:fast-differs:" + "+".join(sites)[:80],
+                      f"fast serialize() differs for Enum fields {sites} over {case['enumKinds']}: "
+                      f"regular={impl.get('fast_regular')} fast={impl.get('fast')}"))
+    return None, fails
 
 
 def judge(case, impl, model):
@@ -358,4 +397,5 @@ def judge(case, impl, model):
         return None, []
     if "abstraction_mismatch" in impl:
         return "dump(build(decl)) != decl: " + json.dumps(impl["abstraction_mismatch"])[:600], []
-    return {"trusted": judge_trusted, "construct": judge_construct, "fast": judge_fast}[case["mode"]](case, impl, model)
+    return {"trusted": judge_trusted, "construct": judge_construct, "fast": judge_fast,
+            "enumvalue": judge_enumvalue}[case["mode"]](case, impl, model)
